@@ -11,12 +11,12 @@ TRUST = ("Trusted: rustc nightly MIR construction and type resolution, syn's par
          "structural clauses named; the behavioural quantifier of the property (all values / inputs) is not decided.")
 
 META = {
-    "C01": dict(tech="static analysis: sibling codec-skeleton agreement + path rules over MIR",
+    "C01": dict(tech="static analysis: sibling codec-skeleton agreement of UperWriter/UperReader (call sets, constraint arguments, nesting of framing combinators, count decisions) + path rules (scope restoration, length-determinant discipline) over MIR",
                 text="Decides structural preconditions of UPER symmetry on the current tree: every descriptor and every "
                      "UperWriter/UperReader kind pair calls the same primitives with the same constraint descriptors, "
                      "scope save/restore on all paths, one shared field order in the generator, length-determinant "
                      "fragment discipline. Does not decide decode(encode(v)) == v.", ref="5/C01"),
-    "C02": dict(tech="static analysis: frozen X.691 threshold/constant table matched against normalised MIR comparison and call facts, near-miss detection",
+    "C02": dict(tech="static analysis: frozen X.691 threshold/constant table matched against normalised MIR comparison and call facts, near-miss detection; sign-sensitivity of the 11.8 octet count (value origins)",
                 text="Decides that each X.691 threshold and constant the conformance profile needs (127/128, 16383/16384, 64K, "
                      "64/63, n-1, character widths, fragment unit and clamp) is present exactly in the writer and reader "
                      "function it belongs to, and that no off-by-one neighbour of such a value occurs. Does not decide "
@@ -34,11 +34,11 @@ META = {
                 text="Decides the dataflow facts cross-version decoding needs: the transmitted addition count bounds the "
                      "presence range and is retained, open-type skip uses the position captured before the content, both "
                      "optional wrappers wrap additions as open types. Not the decoded values for schema pairs.", ref="5/C05"),
-    "C06": dict(tech="static analysis: must-check-before-success path rule over MIR CFGs",
+    "C06": dict(tech="static analysis: must-check-before-success path rule over MIR CFGs (no Ok return around the range decision); X.680 alphabet table decided by interval partitioning of Charset::is_valid",
                 text="Decides that on every path to an Ok return of an encoding primitive / kind the value has been compared "
                      "with each present bound and every emitting call is dominated by that comparison; error vocabulary census.",
                 ref="5/C06"),
-    "C07": dict(tech="static analysis: field-provenance of copy constructors over MIR aggregates",
+    "C07": dict(tech="static analysis: field-provenance of copy constructors over MIR aggregates; dropped-parse census; sentinel agreement of the SIZE parser",
                 text="Decides that the resolve/copy stages of the front end construct every field of every model struct from the "
                      "same-named field of the source (no dropped, swapped or defaulted field). Not the token-consuming parser.",
                 ref="5/C07"),
@@ -47,7 +47,7 @@ META = {
                      "for the printed word builds the same variant; that into_asn inverts definition_type_to_rust_type; and that each "
                      "printed bound / flag / count comes from the getter it names. Does not decide equality of the re-read model for "
                      "every argument shape.", ref="5/C08"),
-    "C09": dict(tech="static analysis: keyword table inclusion (syn const arrays) and who-may-print rule",
+    "C09": dict(tech="static analysis: keyword table inclusion (syn const arrays), who-may-print rule, sibling agreement of the two type printers (MIR match arms)",
                 text="Decides that the generator's keyword escape table covers every Rust keyword that can be an ASN.1 identifier "
                      "and that field names are printed through the escaping helper.", ref="5/C09"),
     "C10": dict(tech="static analysis: sibling boundary/skeleton agreement of PackedWrite/PackedRead pairs, length-determinant discipline, parameter-taint to panic sinks",
@@ -56,31 +56,31 @@ META = {
                      "inadmissible arguments. Not the numeric bit pattern.", ref="5/C10"),
     "C11": dict(tech="static analysis: dominance of bounds checks over accesses, sibling boundary agreement, cursor discipline over MIR",
                 text="Decides the error-not-panic clause and the cursor/growth discipline of the bit-level primitives.", ref="5/C11"),
-    "C12": dict(tech="static analysis: lookup-provenance path rule, cast census, normalisation-twin table over MIR",
+    "C12": dict(tech="static analysis: lookup-provenance path rule, cast census, normalisation-twin table, Option-key equality guarded by is_some, normaliser provenance over MIR",
                 text="Decides that value-reference resolution can only copy the looked-up literal or fail, uses no lossy cast, "
                      "and that literal-sensitive parse-time normalisation has a post-resolve twin.", ref="5/C12"),
-    "C13": dict(tech="static analysis: event-before-event path rule on the tokenizer CFG",
+    "C13": dict(tech="static analysis: event-before-event path rules on the tokenizer CFG (flush before separator events, consume only what was peeked, delimiter consumed where the nesting level changes)",
                 text="Decides that every separator event flushes the pending token before the next append and that token "
                      "locations are built from the same line/column expressions.", ref="5/C13"),
     "C14": dict(tech="static analysis: census and discharge of panic-capable sites reachable from the front-end entry points; recursion-descends rule on the call graph",
                 text="Decides that no panic-capable construct is reachable from tokenizer/parser/resolver/converters except "
                      "reviewed ones and that recursion descends structurally or consumes input.", ref="5/C14"),
-    "C15": dict(tech="static analysis: guard-constant/variant/cast table of the integer cascade, bound provenance (MIR)",
+    "C15": dict(tech="static analysis: guard-constant/variant/cast table of the integer cascade, bound provenance, edge-cut reachability of the unsigned choice (MIR)",
                 text="Decides table consistency of the integer-type cascade (guard constant, constructed variant, cast width agree "
                      "and ascend; extensible -> 64 bit) and provenance of min/max. Not narrowest-type for all pairs.", ref="5/C15"),
-    "C16": dict(tech="static analysis: enum declaration order + derived Ord, sort-key types, who-sorts rule, X.680 universal tag table",
+    "C16": dict(tech="static analysis: enum declaration order + derived Ord, sort-key types, who-sorts / no-keyed-order rule, X.680 universal tag table",
                 text="Decides the ordering mechanism for SET components and tag assignment tables.", ref="5/C16"),
-    "C17": dict(tech="static analysis: counter-advance path rule, wire-type and width-cascade sibling agreement (config with feature protobuf)",
+    "C17": dict(tech="static analysis: counter-advance path rule, wire-type and width-cascade sibling agreement, narrow-before-arithmetic rule of the 32-bit decoders, recursion of the ProtobufEq wrappers (config with feature protobuf)",
                 text="Decides field-counter discipline, wire-type and width agreement between protobuf writer and reader, and "
                      "back-end neutrality. Compiles a configuration the pinned test baseline never builds.", ref="5/C17"),
-    "C18": dict(tech="static analysis: agreement of two independent RustType->wire-type chains and field numbering",
+    "C18": dict(tech="static analysis: agreement of two independent RustType->wire-type chains, field numbering, writer width cascade = model cascade",
                 text="Decides that the runtime writer and the .proto generator agree on wire type and field number per Rust type.",
                 ref="5/C18"),
     "C19": dict(tech="static analysis: cfg-region neutrality (syn cfg spans x MIR of both configurations)",
                 text="Decides the property up to listed assumptions: code gated on descriptive-deserialize-errors contains no "
                      "control transfer, writes only gated state, binds nothing ungated code reads, and the ungated skeleton is "
                      "identical in both configurations.", ref="3/T9, 5/C19"),
-    "C20": dict(tech="static analysis: inverse-table, boundary and skeleton agreement of DER writer/reader",
+    "C20": dict(tech="static analysis: inverse-table, boundary and skeleton agreement of DER writer/reader; bit provenance of the identifier octet",
                 text="Decides class-bit table inversion, length-form boundary agreement and skeleton symmetry of the implemented DER "
                      "primitives.", ref="5/C20"),
 }
